@@ -20,21 +20,29 @@ ChV == << Adv("over", Op("+")), Adv("over", Lam("sub")), Adv("over", Op(",")), A
           Adv("each", Lam("dbl")), Adv("each", Op("-")), Adv("eachpair", Lam("sub")), Adv("over", Op("|")), Adv("over", Op("&")),
           Adv("over", Op("-")), Adv("scan", Op("-")), Adv("eachpair", Op("-")), Adv("over", Op("*")), Adv("scan", Op("*")) >>
 
+\* While and Scan-While take two verbs: p f:~a, p f\~a  (entries of WhV are <<p, f>>)
+WhV == << <<Lam("lt20"), Lam("dbl")>>, <<Lam("lt20"), Lam("pym")>>, <<Lam("lt20"), Lam("sq1")>>, <<Lam("pos"), Lam("dec")>>,
+          <<Lam("pos"), Lam("half")>>, <<Lam("lt20"), Adv("over", Op("+"))>> >>
 \* forms: name, arity (1: f adv a ; 2: a f adv b), verb list
 Forms == << [n |-> "each", ar |-> 1, vs |-> MoV], [n |-> "eachpair", ar |-> 1, vs |-> DyV], [n |-> "over", ar |-> 1, vs |-> DyV],
             [n |-> "scan", ar |-> 1, vs |-> DyV], [n |-> "converge", ar |-> 1, vs |-> CvV], [n |-> "scanconverge", ar |-> 1, vs |-> CvV],
             [n |-> "eachindex", ar |-> 1, vs |-> IxV], [n |-> "each", ar |-> 1, vs |-> ChV],
             [n |-> "each", ar |-> 2, vs |-> DyV], [n |-> "eachleft", ar |-> 2, vs |-> DyV], [n |-> "eachright", ar |-> 2, vs |-> DyV],
             [n |-> "over", ar |-> 2, vs |-> DyV], [n |-> "scan", ar |-> 2, vs |-> DyV],
-            [n |-> "iterate", ar |-> 2, vs |-> MoV], [n |-> "scaniterate", ar |-> 2, vs |-> MoV] >>
+            [n |-> "iterate", ar |-> 2, vs |-> MoV], [n |-> "scaniterate", ar |-> 2, vs |-> MoV],
+            [n |-> "while", ar |-> 1, vs |-> WhV], [n |-> "scanwhile", ar |-> 1, vs |-> WhV] >>
 
 VARIABLES fi, vi, ai, bi
 Init == fi = 1 /\ vi = 1 /\ ai = 1 /\ bi = 1
 F == Forms[fi]
 N == Len(Ops)
-Verb == Adv(F.n, F.vs[vi])
-Expected == IF F.ar = 1 THEN Ap1F(Verb, Ops[ai]) ELSE Ap2F(Verb, Ops[ai], Ops[bi])
-Case == [form |-> F.n, ar |-> F.ar, f |-> F.vs[vi], a |-> Ops[ai], b |-> IF F.ar = 2 THEN Ops[bi] ELSE I(0), exp |-> Expected]
+IsWh == F.n \in {"while", "scanwhile"}
+Verb == IF IsWh THEN F.vs[vi][2] ELSE Adv(F.n, F.vs[vi])
+Expected == IF F.n = "while" THEN WhileF(F.vs[vi][1], F.vs[vi][2], Ops[ai])
+            ELSE IF F.n = "scanwhile" THEN ScanWhileF(F.vs[vi][1], F.vs[vi][2], Ops[ai])
+            ELSE IF F.ar = 1 THEN Ap1F(Verb, Ops[ai]) ELSE Ap2F(Verb, Ops[ai], Ops[bi])
+Case == [form |-> F.n, ar |-> F.ar, f |-> IF IsWh THEN F.vs[vi][2] ELSE F.vs[vi], p |-> IF IsWh THEN F.vs[vi][1] ELSE Op("-"),
+         a |-> Ops[ai], b |-> IF F.ar = 2 THEN Ops[bi] ELSE I(0), exp |-> Expected]
 Done == fi > Len(Forms)
 Next == /\ ~Done
         /\ IF F.ar = 2 /\ bi < N THEN bi' = bi + 1 /\ UNCHANGED <<fi, vi, ai>>
